@@ -50,7 +50,7 @@ def graph_family():
     lits = [L("x"), L(""), L("a b"), L('"'), L("'"), L("\\"), L("\n"), L("\t"), L("\r"), L("é"), L("\U0001F600"), L('"""'), L("'''"), L("a\nb\"c'd\\e"),
             L("x", lang="en"), L("x", lang="en-us"), L("", lang="en"), L("1", dt=XSDNS + "integer"), L("-5", dt=XSDNS + "integer"), L("1.5", dt=XSDNS + "decimal"),
             L("1.5E0", dt=XSDNS + "double"), L("true", dt=XSDNS + "boolean"), L("x", dt=XSDNS + "string"), L("x", dt=EX + "dt"), L("01", dt=EX + "dt"),
-            L("<a>&amp;</a>"), L("]]>"), L(" lead"), L("trail ")]
+            L("<a>&amp;</a>"), L("]]>"), L(" lead"), L("trail "), L("x\r\ny\rz")]
     for lit in lits:
         out.append([(A, P, lit)])
     out.append([(A, P, lits[0]), (A, P, lits[14]), (A, Q, lits[17])])
@@ -265,8 +265,9 @@ def _batch(arg):
                 continue
             plain = render(syntax, rows, frozenset())
             for fl in vectors(flags_all, maxdev):
-                modes = MODES if (all_modes and len(fl) <= 1) else ["data-str"]
-                v, doc, applicable = check_doc(syntax, rows, fl, modes if (not fl or len(fl) == 1 and all_modes) else ["data-str"], tmpdir, plain if fl else None)
+                # every input mode for the plain spelling and for single deviations, and for raw long strings (their line ends reach the parser unescaped)
+                wide = all_modes and (len(fl) <= 1 or set(fl) in ({"raw", "long-quote"}, {"raw", "long-single-quote"}))
+                v, doc, applicable = check_doc(syntax, rows, fl, MODES if wide else ["data-str"], tmpdir, plain if fl else None)
                 if fl and not applicable:
                     continue
                 n += 1
